@@ -940,7 +940,8 @@ void RunCreateCase(uint64_t c, vh::Rng& rng, int ops, bool allow_tiny)
         vh::log().rec(j);
         if (cr.ok) ++created;
         if (cr.ok && accepted && rng.chance(6, 10)) {
-            sim.Commit(cr.tx);
+            // CWallet::CommitTransaction requires every input's parent in the wallet; transactions with external inputs go the sendrawtransaction way
+            if (rq.external.empty()) sim.Commit(cr.tx); else sim.Submit(cr.tx);
             ++committed;
         }
         HouseKeeping(w, blocks, funded);
@@ -1075,7 +1076,7 @@ void RunBumpCase(uint64_t c, vh::Rng& rng, int ops)
             cr = RunRequest(w, rq);
             if (!cr.ok || !cr.complete) continue;
             if (!sim.TestAccept(cr.tx).ok) continue;
-            sim.Commit(cr.tx);
+            if (rq.external.empty()) sim.Commit(cr.tx); else sim.Submit(cr.tx);
             sim.Sync();
             made = sim.Ledger().Status(cr.tx->GetHash()) == TxStatus::MEMPOOL;
         }
